@@ -10,7 +10,7 @@ from vlib.nlp import NLP, Rows, subtract_rows, close, time_like_vars, random_poi
 
 ID = "C01"
 LEVEL = "exploration"
-BUDGET = {"quick": (8, 120), "thorough": (16, 1200)}
+BUDGET = {"quick": (8, 120), "thorough": (16, 3000)}
 RULE = ("Hypothesis-generated OCP specs (1-2 state symbols of vector/matrix shape, 0-2 controls, global / per-interval / "
         "per-node parameters and variables, optional quadrature state, bounded nonlinear time-dependent right-hand sides or a "
         "discrete set_next model using DT/DT_control, fixed/free/parametric t0 and T) x SingleShooting|MultipleShooting x "
